@@ -505,6 +505,8 @@ def std_run(mod, tier, seed, focus, deadline, nproc=None, case_timeout=None) -> 
             absorb(case, jsonable(h(case)))
         elif status == "timeout":
             out["info"]["case-timeouts"] = out["info"].get("case-timeouts", 0) + 1
+            if case.get("probe"):  # a fixed probe case must never be lost silently: it is part of what every run promises to cover
+                out["errors"].append(f"fixed probe case timed out (not evaluated): {json.dumps(case, default=str)[:200]}")
         else:
             out["errors"].append(f"worker died on case: {json.dumps(case, default=str)[:300]}")
 
